@@ -196,3 +196,46 @@ package logx
 //@   ensures [encode-error-not-written] ret(json.Marshal, 1) != nil ==> calls(Write) == 0
 //@   ensures [own-bytes-written-once] ret(json.Marshal, 1) == nil && writer != nil ==> calls(writer.Write) == 1 && len(arg(writer.Write, 0)) == len(content) + 1 && arg(writer.Write, 0)[len(content)] == 10 && (arg(writer.Write, 0).arr == content.arr || fresh(arg(writer.Write, 0)))
 //@   ensures [encodes-the-record] calls(json.Marshal, info) == 1
+
+// ---------------- configuration reaches the rotation rule (C19) ----------------
+// The option setters store each configured value in its own field (these are the fields createOutput reads).
+//@ func WithKeepDays$1
+//@   prop C19
+//@   requires opts != nil
+//@   ensures opts.keepDays == days && opts.maxSize == old(opts.maxSize) && opts.maxBackups == old(opts.maxBackups)
+//@ func WithMaxBackups$1
+//@   prop C19
+//@   requires opts != nil
+//@   ensures opts.maxBackups == count && opts.maxSize == old(opts.maxSize) && opts.keepDays == old(opts.keepDays)
+//@ func WithMaxSize$1
+//@   prop C19
+//@   requires opts != nil
+//@   ensures opts.maxSize == size && opts.maxBackups == old(opts.maxBackups) && opts.keepDays == old(opts.keepDays)
+//@ func WithRotation$1
+//@   prop C19
+//@   requires opts != nil
+//@   ensures opts.rotationRule == rule
+//@ func WithGzip$1
+//@   prop C19
+//@   requires opts != nil
+//@   ensures opts.gzipEnabled
+// newFileWriter: the configured retention, backup count, size limit, compression and rotation rule are all turned
+// into options BEFORE any output is created; five outputs are created (access, error, severe, slow, stat), each
+// level writing to its own file, and a failure to create one is returned.
+//@ func newFileWriter
+//@   prop C19
+//@   opaque handleOptions, setupLogLevel, createOutput, newLessWriter, WithCooldownMillis, WithGzip, WithKeepDays, WithMaxBackups, WithMaxSize, WithRotation, Join
+//@   let w = unbox(result0, ptr(concreteWriter))
+//@   ensures [path-required] len(c.Path) == 0 ==> result1 == ErrLogPathNotSet && result0 == nil && calls(createOutput) == 0
+//@   ensures [configured-limits-become-options] len(c.Path) > 0 ==> (calls(WithKeepDays) == 1) == (c.KeepDays > 0) && (c.KeepDays > 0 ==> arg(WithKeepDays, 0) == c.KeepDays) && (calls(WithMaxBackups) == 1) == (c.MaxBackups > 0) && (c.MaxBackups > 0 ==> arg(WithMaxBackups, 0) == c.MaxBackups) && (calls(WithMaxSize) == 1) == (c.MaxSize > 0) && (c.MaxSize > 0 ==> arg(WithMaxSize, 0) == c.MaxSize) && (calls(WithGzip) == 1) == c.Compress && calls(WithRotation, c.Rotation) == 1
+//@   ensures [options-applied-before-outputs] len(c.Path) > 0 ==> calls(handleOptions) == 1 && before(handleOptions, createOutput) && before(WithRotation, handleOptions) && before(WithMaxSize, handleOptions) && before(WithMaxBackups, handleOptions) && before(WithKeepDays, handleOptions)
+//@   ensures [each-level-its-own-output] result1 == nil && len(c.Path) > 0 ==> calls(createOutput) == 5 && w.infoLog == ret(createOutput, 0, 1) && w.errorLog == ret(createOutput, 0, 2) && w.severeLog == ret(createOutput, 0, 3) && w.slowLog == ret(createOutput, 0, 4) && w.statLog == ret(createOutput, 0, 5) && arg(createOutput, 0, 1) == ret(path.Join, 0, 1) && arg(createOutput, 0, 2) == ret(path.Join, 0, 2) && arg(createOutput, 0, 3) == ret(path.Join, 0, 3) && arg(createOutput, 0, 4) == ret(path.Join, 0, 4) && arg(createOutput, 0, 5) == ret(path.Join, 0, 5)
+// Close closes every output (stopping at the first failure, which is returned).
+//@ func (*concreteWriter).Close
+//@   prop C19
+//@   requires w != nil
+//@   ensures [all-closed-when-no-error] result == nil ==> calls(w.infoLog.Close) >= 1 && calls(Close) == 5
+//@ func handleOptions
+//@   prop C19
+//@   loop 1 invariant -1 <= rangeindex && rangeindex <= len(opts)
+//@   loop 1 iteration-ensures [each-option-applied-to-the-global-options] calls(opt) == 1 && opt == at_head(opts[rangeindex + 1])
